@@ -344,6 +344,29 @@ ROUND5 = {
     "C20": "The feature returned by get_merged_* is itself well formed.",
 }
 
+ROUND6 = {
+    "C01": "Feature-level windows that reach the last base of the chromosome.",
+    "C02": "Designed 3-4 block layouts where summed lengths equal the span although a gap is left; the same id with and without sequence data as three coordinate systems; structural questions on one-block locations.",
+    "C03": "-",
+    "C04": "Levels that carry their ancestor's name and length (whole-chromosome views on either strand); the interval-level lift wrapper with every kind of target type.",
+    "C05": "Codon windows inside introns and across their edges (expanded and plain).",
+    "C06": "Windows on a chromosome that ends with the last exon.",
+    "C07": "Chunk-built twins: .blocks, UTR intervals (one finding fixed), BED12 in chromosome coordinates, dictionaries in chunk coordinates, variant dictionaries, gene-level coordinate accessors.",
+    "C08": "Dictionaries in chunk coordinates on clipping chunks (C08.RQ); exported parent of a collection whose sequence_name is an alias.",
+    "C09": "Identifiers shared by several members, asked again of the result.",
+    "C10": "No state keyed by id(...) in a container that outlives the call (C10.R6, with a built-in positive example).",
+    "C11": "FASTA records of sequences whose length sits around the line width.",
+    "C12": "force_strand=False; record annotations; reserved qualifier keys on the source objects.",
+    "C13": "Insertions flush with a block end; several same-length haplotypes of one chunk built one after the other with the class-level memo of Parent modelled.",
+    "C14": "The name argument (any attribute of the record, else the literal).",
+    "C15": "has_name / has_value of every enumeration agree with look-up, synonyms included.",
+    "C16": "Range queries on a chromosome longer than 2^29.",
+    "C17": "Source models that differ only in the frames annotated 3' of the first CDS block export the same file.",
+    "C18": "-",
+    "C19": "ParentModel and cross-chromosome refusals; alphabet violations by blanks, line ends, tabs and digits at either end.",
+    "C20": "Members that receive the gene's parent late; a chunk that cuts into the members (ranking by whole lengths); every way of walking an annotation collection, also on query results.",
+}
+
 NOT_YET = "rules for this property are not implemented in this commit (see DESIGN.md section 6b for the order)"
 
 
@@ -362,7 +385,7 @@ def main():
                 replay_cmd_template="./check --replay {path}",
                 engine="sa",
                 level_claimed=dict(category="other", text=c["text"] + (" Added later: " + ROUND3[pid] if pid in ROUND3 else "")
-                                   + (" Round 4: " + ROUND4[pid] if ROUND4.get(pid, "-") != "-" else "") + (" Round 5: " + ROUND5[pid] if pid in ROUND5 else "") + ("" if pid == "C10" else " " + RA),
+                                   + (" Round 4: " + ROUND4[pid] if ROUND4.get(pid, "-") != "-" else "") + (" Round 5: " + ROUND5[pid] if pid in ROUND5 else "") + (" Round 6 / mutation sweeps: " + ROUND6[pid] if ROUND6.get(pid, "-") != "-" else "") + ("" if pid == "C10" else " " + RA),
                                    design_ref=c["design"]),
                 level_note=c["note"],
                 technique=c["technique"],
